@@ -5,7 +5,10 @@ from vlib.annexb_util import parse_trace, units_of, all_strings, segment
 ID = "C01"
 RULE = ("exhaustive: every byte string up to length L over {00,01,02} x every partition into non-empty pushes, with "
         "and without a final reset, plus partitions with empty pushes interleaved; random grammar streams (units with "
-        "zero runs, 3/4-byte start codes, garbage, trailing zeros, units up to 8 KiB) x random partitions. "
+        "zero runs, 3/4-byte start codes, garbage, trailing zeros, units up to 8 KiB) x random partitions; pattern "
+        "streams whose zero runs / unit lengths are p-2..p+3 for p in {4..4096 powers of two, 192} (some up to 64 KiB) with "
+        "cuts displaced -3..+3 from token boundaries; the same with runs up to 1 MiB on the implementation only, judged by the "
+        "segmentation oracle (the model appends byte by byte and is quadratic in the unit length); zero padding of every length 0..299 (thorough 0..1099). "
         "observable = list of units (bytes grouped by end flags) and the open remainder; non-trivial = stream holds a start code")
 CORRESPONDENCE = "Model/AnnexB.v push/reset vs annexb::AnnexBReader (units and open remainder)"
 ASSUMPTIONS = ["memchr and slice borrowing are abstracted (lists, per-byte steps); exercised by the correspondence"]
@@ -45,6 +48,72 @@ def random_partition(rng, data):
     return parts
 
 
+# run lengths around every power of two a fast path could key on (SIMD widths, block and window sizes)
+BSET = sorted({max(0, p + d) for p in (0, 4, 8, 16, 32, 64, 128, 192, 256, 512, 1024, 4096) for d in (-2, -1, 0, 1, 2, 3)})
+
+
+HUGE = [16386, 65534, 65536, 65538, 131072, 1 << 20]
+
+
+def pattern_stream(rng, big=False, huge=False):
+    """tokens: zero runs / start codes / zero-free units / units with inner zeros, lengths from BSET; returns the
+    stream and the token boundaries (cut candidates)"""
+    out, marks = bytearray(), []
+    # the model appends byte by byte (quadratic): streams beyond 8 KiB go to the implementation only ("!" cases),
+    # judged by the start-code segmentation oracle in extra_check
+    lens = BSET + HUGE if huge else BSET if not big else BSET + [8190, 8192, 8194]
+    for _ in range(rng.randrange(2, 6)):
+        c = rng.randrange(8)
+        if c < 3:
+            out += b"\x00" * rng.choice(lens[:40])
+            marks.append(len(out))
+        if c == 3:
+            out += bytes([rng.choice([2, 3, 0xff])])        # garbage byte between zeros and the 01
+            marks.append(len(out))
+        out += b"\x00" * rng.choice([1, 2, 2, 2, 3])
+        marks.append(len(out))
+        out += b"\x01"
+        marks.append(len(out))
+        n = rng.choice(lens)
+        k = rng.randrange(3)
+        if k == 0:
+            unit = bytes(rng.randrange(1, 256) for _ in range(n))        # zero-free
+        elif k == 1:
+            unit = bytes(rng.choice([1, 1, 2, 3, 0x80]) for _ in range(n))
+        else:
+            unit = bytearray(rng.randrange(1, 256) for _ in range(n))
+            for _ in range(rng.randrange(1, 4)):
+                if n:
+                    j = rng.randrange(n)
+                    unit[j:j + rng.choice([1, 2])] = b"\x00" * rng.choice([1, 2])
+            unit = bytes(unit[:n])
+        out += unit
+        marks.append(len(out))
+    out += b"\x00" * rng.choice([0, 0, 1, 2, 3] + lens[:30])
+    return bytes(out), marks
+
+
+def boundary_partition(rng, data, marks):
+    """cuts at token boundaries displaced by -3..+3 (inside start codes, just before / after the 01, at the ends of
+    long runs), each kept with probability 1/2; optionally further cuts at BSET distances"""
+    cuts = set()
+    for m in marks:
+        if rng.random() < 0.5:
+            cuts.add(m + rng.choice([-3, -2, -1, 0, 0, 1, 2, 3]))
+    if rng.random() < 0.3:
+        i = 0
+        while i < len(data):
+            i += rng.choice(BSET[3:])
+            cuts.add(i)
+    cuts = sorted(c for c in cuts if 0 < c < len(data))
+    parts, last = [], 0
+    for c in cuts:
+        parts.append(data[last:c])
+        last = c
+    parts.append(data[last:])
+    return parts
+
+
 def gen(tier, rng):
     L = 6 if tier == "quick" else 8
     cases = []
@@ -69,6 +138,24 @@ def gen(tier, rng):
     for i in range(n3):
         s = grammar_stream(rng, big=(i % 50 == 0))
         cases.append("annexb " + ops_of(random_partition(rng, s), rng.random() < 0.85))
+    # power-of-two run lengths with cuts around the token boundaries (fast-path thresholds)
+    n4 = 3000 if tier == "quick" else 40000
+    for i in range(n4):
+        s, marks = pattern_stream(rng, big=(i % 40 == 0))
+        parts = boundary_partition(rng, s, marks) if rng.random() < 0.8 else random_partition(rng, s)
+        cases.append("annexb " + ops_of(parts, rng.random() < 0.85))
+    for i in range(12 if tier == "quick" else 150):
+        s, marks = pattern_stream(rng, huge=True)
+        if len(s) > (1 << 21):
+            continue
+        cases.append("!annexb " + ops_of(boundary_partition(rng, s, marks), True))
+    # zero padding of every length up to 300 before a unit, in one push and cut after two zeros
+    for z in range(0, 300 if tier == "quick" else 1100):
+        s = b"\x00" * z + b"\x01\x65\x88" + b"\x00" * (z % 5) + b"\x00\x00\x01\x41\x9a"
+        cases.append("annexb " + ops_of([s], True))
+        cases.append("annexb " + ops_of([s[:2], s[2:]], True))
+        g = b"\x00\x00\x01\x09" + s
+        cases.append("annexb " + ops_of([g], True))
     return cases
 
 
@@ -89,7 +176,7 @@ def stream_of(case):
 
 def extra_check(r):
     """independent oracle: after a final reset the implementation's units are the segmentation of the whole stream"""
-    data, has_reset = stream_of(r["case"])
+    data, has_reset = stream_of(r["case"].lstrip("!"))
     if not has_reset or "r" in r["case"].split()[1].split(",")[:-1]:
         return None
     units, rem = units_of(parse_trace(r["dev"]))
@@ -100,13 +187,13 @@ def extra_check(r):
 
 
 def nontrivial(r):
-    data, _ = stream_of(r["case"])
+    data, _ = stream_of(r["case"].lstrip("!"))
     return b"\x00\x00\x01" in data
 
 
 def classify(r):
-    data, rs = stream_of(r["case"])
-    k = ["len<=%d" % (8 if len(data) <= 8 else 64 if len(data) <= 64 else 1024 if len(data) <= 1024 else 99999)]
+    data, rs = stream_of(r["case"].lstrip("!"))
+    k = ["len<=%d" % (8 if len(data) <= 8 else 64 if len(data) <= 64 else 1024 if len(data) <= 1024 else 16384 if len(data) <= 16384 else 9999999)]
     k.append("units=%d" % min(4, len(segment(data))))
     k.append("reset" if rs else "noreset")
     return k
